@@ -22,6 +22,7 @@ const (
 	maxScriggoFunctionsCount = 256
 	maxFieldIndexesCount     = 256
 	maxSelectCasesCount      = 65536
+	maxTextsCount            = 65536
 
 	// Types.
 	maxTypesCount = 256
@@ -565,6 +566,9 @@ func (fb *functionBuilder) flushText() {
 		text = append(text, b...)
 	}
 	fb.text.txt = fb.text.txt[0:0]
+	if len(fb.fn.Text) == maxTextsCount {
+		panic(newLimitExceededError(fb.fn.Pos, fb.path, "texts count exceeded %d", maxTextsCount))
+	}
 	fb.fn.Text = append(fb.fn.Text, text)
 }
 
